@@ -1,4 +1,495 @@
-/- C02 — model and specification (stub; see HACKING.md) -/
+/-
+  C02 — valid input is parsed to the end; no valid instruction truncates the model.
+
+  Two groups of definitions (HACKING.md):
+
+  * the **model**: an interpreter for the *requirements* of the per-keyword handlers of
+    `Shelxfile._parse_cards` and of the card constructors of `cards.py`.  The requirement tables themselves
+    (`dispatch`, `cardTable`, `atomSteps`, `shxCards`) are REGENERATED from the source on every run by
+    `extract/tables_c02.py` (`ShelxModel/Extracted/C02Dispatch.lean`); this file only says what a requirement
+    means: which token is indexed without a length check, which token goes through `float()`/`int()`, which
+    undefined name is evaluated, which `raise` is reachable in which diagnostic mode.  Exceptions are values
+    (`Except Err St`).  `parseAll` mirrors `parse_cards`: one try/except around the whole loop — quiet and
+    verbose swallow the exception and STOP, debug re-raises.
+
+  * the **spec**: the code-independent SHELXL syntax table (`syntaxTable`, DESIGN.md Appendix A / the syntax
+    summary the library documents in `cards.py`) with `validForms`, and the statement "every line is consumed,
+    nothing raises, in every mode".
+-/
 namespace Shelx.C02
+
+/-! ## Tokens, modes, errors -/
+
+/-- the lexical classes of a parameter token that the handlers can tell apart -/
+inductive Kind
+  | int    -- `3`, `-2`           float() ok, int() ok, first char digit/sign
+  | num    -- `0.25`, `-1.2`      float() ok, int() raises, first char digit/sign
+  | big    -- `10.25`, `21.0`     as `num`, value > 4 (free-variable coded parameter)
+  | dnum   -- `.5`                float() ok, int() raises, first char '.'  (a *word* for Command._parse_line)
+  | word   -- `C1`, `$H`, `NOHKL` float() raises
+  | sym    -- `-x,`, `1/2+y,`     first char digit/sign but float() raises
+  deriving DecidableEq, Repr
+
+def Kind.floatOk : Kind → Bool
+  | .int | .num | .big | .dnum => true
+  | _ => false
+
+def Kind.intOk : Kind → Bool
+  | .int => true
+  | _ => false
+
+/-- `str.isdigit(x[0]) or x[0] in '+-'` — the numeric test of `Command._parse_line` -/
+def Kind.cmdNumeric : Kind → Bool
+  | .int | .num | .big | .sym => true
+  | _ => false
+
+/-- `'.' in token` (used by `is_atom` on the second column) -/
+def Kind.hasDot : Kind → Bool
+  | .num | .big | .dnum => true
+  | _ => false
+
+inductive Mode | quiet | verbose | debug
+  deriving DecidableEq, Repr
+
+def allModes : List Mode := [.quiet, .verbose, .debug]
+
+inductive Err
+  | IndexError | ValueError | NameError | AttributeError | KeyError | ParseError | Other
+  deriving DecidableEq, Repr
+
+/-! ## Handler requirements (the shape of the regenerated tables) -/
+
+inductive Cond
+  | sEq (n : Nat) | sNe (n : Nat) | sGt (n : Nat) | sLt (n : Nat) | sGe (n : Nat) | sLe (n : Nat)   -- len(spline) ? n
+  | pEq (n : Nat) | pNe (n : Nat) | pGt (n : Nat) | pLt (n : Nat) | pGe (n : Nat) | pLe (n : Nat)   -- len(p) ? n  (numeric parameters)
+  | wEq (n : Nat) | wNe (n : Nat) | wGt (n : Nat) | wLt (n : Nat) | wGe (n : Nat) | wLe (n : Nat)   -- len(words) ? n
+  | modeIn (ms : List Mode)
+  | lastEq (kw : String) | lastNe (kw : String)       -- lastcard == / != kw
+  | flagOn (f : String) | flagOff (f : String)         -- truthiness of a parser attribute (self.frag, self.end, …)
+  | caught (k : Nat) | notCaught (k : Nat)             -- inside the handler of try #k / later in the body of try #k
+  | restAlpha (a : Nat) | restNotAlpha (a : Nat)       -- ''.join(spline[a:]).isalpha()
+  | opaque (txt : String)                              -- a test the translator does not interpret
+  deriving DecidableEq, Repr
+
+inductive Act
+  | needS (i : Nat)            -- spline[i]
+  | needP (i : Nat)            -- p[i]
+  | needW (i : Nat)            -- words[i]
+  | popS (i : Nat)             -- spline.pop(i)
+  | popP                       -- p.pop(0)
+  | toFloat (i : Nat)          -- float(spline[i])
+  | toInt (i : Nat)            -- int(spline[i])
+  | floatFrom (a : Nat)        -- float(x) for x in spline[a:]
+  | floatRange (a b : Nat)     -- float(x) for x in spline[a:b]
+  | intNonWord (a : Nat)       -- int(x) for every x in spline[a:] that contains no letter (RESI)
+  | unpackP (n : Nat)          -- a, b = p
+  | parseCmd (intnums : Bool)  -- Command._parse_line(spline, intnums)
+  | parseRestr                 -- Restraint._parse_line(spline)
+  | card (cls : String)        -- Cls(self, spline)
+  | raise (e : Err)
+  | stop                       -- `continue`
+  | setLast (kw : String)      -- lastcard = kw
+  | setFlag (f : String) (v : Bool)
+  | unknown (txt : String)     -- statement that did not fit any pattern: treated as raising
+  deriving DecidableEq, Repr
+
+structure Step where
+  conds : List Cond := []
+  catches : List Err := []     -- exception classes caught by the enclosing try
+  tid : Nat := 0
+  act : Act
+  deriving DecidableEq, Repr
+
+inductive Test
+  | wordEq (kw : String)
+  | wordIn (kws : List String)
+  | starts (pre : String)
+  | isAtom
+  | otherwise
+  deriving DecidableEq, Repr
+
+structure Branch where
+  test : Test
+  steps : List Step
+  deriving DecidableEq, Repr
+
+structure CardReq where
+  name : String
+  steps : List Step
+  deriving DecidableEq, Repr
+
+/-- what the regenerated file provides -/
+structure Tables where
+  shxCards : List String
+  dispatch : List Branch
+  cards : List CardReq
+  atomMinCols : Nat
+  assumedFalse : List String := []   -- opaque tests that valid input never triggers (spec side, see `assumed`)
+  deriving Repr
+
+/-! ## Interpreter -/
+
+structure St where
+  s : List Kind              -- kinds of spline (index 0 = the keyword itself)
+  np : Nat := 0
+  nw : Nat := 0
+  caught : List Nat := []
+  last : String := ""        -- lastcard
+  flags : List String := []  -- parser attributes that are truthy
+  stopped : Bool := false
+  deriving DecidableEq, Repr
+
+def Cond.eval (assumedFalse : List String) (m : Mode) (st : St) : Cond → Bool
+  | .sEq n => st.s.length == n | .sNe n => st.s.length != n | .sGt n => st.s.length > n
+  | .sLt n => st.s.length < n | .sGe n => st.s.length ≥ n | .sLe n => st.s.length ≤ n
+  | .pEq n => st.np == n | .pNe n => st.np != n | .pGt n => st.np > n
+  | .pLt n => st.np < n | .pGe n => st.np ≥ n | .pLe n => st.np ≤ n
+  | .wEq n => st.nw == n | .wNe n => st.nw != n | .wGt n => st.nw > n
+  | .wLt n => st.nw < n | .wGe n => st.nw ≥ n | .wLe n => st.nw ≤ n
+  | .modeIn ms => ms.contains m
+  | .lastEq k => st.last == k | .lastNe k => st.last != k
+  | .flagOn f => st.flags.contains f | .flagOff f => !st.flags.contains f
+  | .caught k => st.caught.contains k | .notCaught k => !st.caught.contains k
+  | .restAlpha a => (st.s.drop a).all (· == .word) | .restNotAlpha a => !(st.s.drop a).all (· == .word)
+  | .opaque t => !assumedFalse.contains t
+
+def allFloat (l : List Kind) : Bool := l.all Kind.floatOk
+
+/-- `Command._parse_line`: a token whose first character is a digit or sign goes through `float()`/`int()` -/
+def parseCmdOk (intnums : Bool) (l : List Kind) : Bool :=
+  l.all fun k => !k.cmdNumeric || (if intnums then k.intOk else k.floatOk)
+
+def countP (restr : Bool) (l : List Kind) : Nat :=
+  (l.filter fun k => if restr then k.floatOk else k.cmdNumeric).length
+
+/-- the acts that need no table -/
+def execBasic (st : St) : Act → Except Err St
+  | .needS i => if i < st.s.length then .ok st else .error .IndexError
+  | .needP i => if i < st.np then .ok st else .error .IndexError
+  | .needW i => if i < st.nw then .ok st else .error .IndexError
+  | .popS i => if i < st.s.length then .ok { st with s := st.s.eraseIdx i } else .error .IndexError
+  | .popP => if 0 < st.np then .ok { st with np := st.np - 1 } else .error .IndexError
+  | .toFloat i => match st.s[i]? with
+      | none => .error .IndexError
+      | some k => if k.floatOk then .ok st else .error .ValueError
+  | .toInt i => match st.s[i]? with
+      | none => .error .IndexError
+      | some k => if k.intOk then .ok st else .error .ValueError
+  | .floatFrom a => if allFloat (st.s.drop a) then .ok st else .error .ValueError
+  | .floatRange a b => if allFloat ((st.s.take b).drop a) then .ok st else .error .ValueError
+  | .intNonWord a => if (st.s.drop a).all (fun k => k == .word || k.intOk) then .ok st else .error .ValueError
+  | .unpackP n => if st.np == n then .ok st else .error .ValueError
+  | .parseCmd i =>
+      if parseCmdOk i (st.s.drop 1) then
+        .ok { st with np := countP false (st.s.drop 1), nw := (st.s.drop 1).length - countP false (st.s.drop 1) }
+      else .error .ValueError
+  | .parseRestr =>
+      match st.s with
+      | [] => .error .IndexError
+      | _ :: r => .ok { st with np := countP true r, nw := r.length - countP true r }
+  | .card _ => .error .Other          -- resolved by `exec`
+  | .raise e => .error e
+  | .stop => .ok { st with stopped := true }
+  | .setLast k => .ok { st with last := k }
+  | .setFlag f v => .ok { st with flags := if v then f :: st.flags.erase f else st.flags.filter (· != f) }
+  | .unknown _ => .error .Other
+
+/-- one step under its guard; an exception of a caught class marks the try as caught and goes on -/
+def stepWith (ex : St → Act → Except Err St) (af : List String) (m : Mode) (st : St) (sp : Step) : Except Err St :=
+  if st.stopped then .ok st
+  else if sp.conds.all (Cond.eval af m st) then
+    match ex st sp.act with
+    | .ok st' => .ok st'
+    | .error e => if sp.catches.contains e then .ok { st with caught := sp.tid :: st.caught } else .error e
+  else .ok st
+
+def runWith (ex : St → Act → Except Err St) (af : List String) (m : Mode) : St → List Step → Except Err St
+  | st, [] => .ok st
+  | st, sp :: rest =>
+    match stepWith ex af m st sp with
+    | .ok st' => runWith ex af m st' rest
+    | .error e => .error e
+
+def runBasic (af : List String) (m : Mode) (st : St) (steps : List Step) : Except Err St :=
+  runWith execBasic af m st steps
+
+/-- acts of the dispatch chain: `card` runs the constructor's requirements on the same spline -/
+def exec (T : Tables) (m : Mode) (st : St) : Act → Except Err St
+  | .card cls =>
+    match T.cards.find? (·.name == cls) with
+    | none => .error .Other
+    | some c =>
+      match runBasic T.assumedFalse m { st with np := 0, nw := 0, caught := [], stopped := false } c.steps with
+      | .ok st' => .ok { st with s := st'.s }     -- a constructor may pop from the shared spline (RTAB)
+      | .error e => .error e
+  | a => execBasic st a
+
+def runSteps (T : Tables) (m : Mode) (st : St) (steps : List Step) : Except Err St :=
+  runWith (exec T m) T.assumedFalse m st steps
+
+/-! ## Lines, branch selection -/
+
+/-- an abstract line: the keyword as written (upper case, without residue suffix), the kinds of the
+    parameter tokens, and whether a `!` sits in column 6 (lone-pair lines are not atoms) -/
+structure Form where
+  kw : String
+  toks : List Kind
+  deriving DecidableEq, Repr
+
+def Form.spline (f : Form) : List Kind := .word :: f.toks
+
+/-- `line[:4]` of the upper-cased line -/
+def Form.word (f : Form) : String :=
+  if f.kw.length ≥ 4 then String.ofList (f.kw.toList.take 4) else if f.toks.isEmpty then f.kw else String.ofList ((f.kw ++ " ").toList.take 4)
+
+def Form.isAtomName (T : Tables) (f : Form) : Bool := !T.shxCards.contains f.word
+
+/-- `Shelxfile.is_atom` on the abstract line (column limit regenerated, coordinate limit 4.0 = kind `big`) -/
+def lineIsAtom (T : Tables) (f : Form) : Bool :=
+  f.isAtomName T && f.spline.length ≥ T.atomMinCols &&
+    (match f.spline[1]? with | some k => !k.hasDot | none => false) &&
+    !((f.spline.take 5).drop 2).any (· == .big)
+
+def Test.holds (T : Tables) (f : Form) : Test → Bool
+  | .wordEq k => f.word == k
+  | .wordIn ks => ks.contains f.word
+  | .starts p => p.isPrefixOf f.kw
+  | .isAtom => lineIsAtom T f
+  | .otherwise => true
+
+def selectBranch (T : Tables) (f : Form) : Option Branch := T.dispatch.find? (fun b => b.test.holds T f)
+
+/-- the parser context a line meets -/
+structure Ctx where
+  last : String := ""
+  flags : List String := []
+  deriving DecidableEq, Repr
+
+/-- one iteration of the loop of `_parse_cards` on a non-blank line -/
+def stepLine (T : Tables) (m : Mode) (c : Ctx) (f : Form) : Except Err Ctx :=
+  match selectBranch T f with
+  | none => .ok c
+  | some b =>
+    match runSteps T m { s := f.spline, last := c.last, flags := c.flags } b.steps with
+    | .ok st => .ok { last := st.last, flags := st.flags }
+    | .error e => .error e
+
+def accepts (T : Tables) (m : Mode) (c : Ctx) (f : Form) : Bool := (stepLine T m c f).toBool
+
+/-! ## The whole file: `parse_cards` -/
+
+structure Outcome where
+  lastLine : Nat            -- error_line_num when the loop ended (index of the last line looked at)
+  consumed : Nat            -- number of lines handed to a handler without exception
+  innerErr : Option Err     -- exception that left `_parse_cards`
+  raised : Option Err       -- exception that left `parse_cards` (debug re-raises)
+  ctx : Ctx
+  deriving DecidableEq, Repr
+
+def loop (T : Tables) (m : Mode) : Ctx → Nat → List Form → Outcome
+  | c, i, [] => { lastLine := i - 1, consumed := i, innerErr := none, raised := none, ctx := c }
+  | c, i, f :: rest =>
+    match stepLine T m c f with
+    | .ok c' => loop T m c' (i + 1) rest
+    | .error e => { lastLine := i, consumed := i, innerErr := some e,
+                    raised := if m == .debug then some e else none, ctx := c }
+
+def parseAll (T : Tables) (m : Mode) (file : List Form) : Outcome := loop T m {} 0 file
+
+/-! ## Specification: the SHELXL syntax table (code independent) -/
+
+inductive Slot
+  | titl | cell | zerr | latt | symm | neut | sfac | disp | unit   -- header, in this order
+  | body        -- anywhere between UNIT and HKLF (instruction section or atom list), and — leniently — elsewhere
+  | fvar | hklf | endd | tail   -- FVAR before the atoms, HKLF, END, after END (WGHT suggestion, Q-peaks)
+  deriving DecidableEq, Repr
+
+structure Syn where
+  kw : String
+  slot : Slot := .body
+  mand : List Kind := []
+  opts : List (List Kind) := []      -- optional parameter groups; any prefix of the list is legal
+  tails : List (List Kind) := [[]]   -- alternatives for the trailing atom-name / free list
+  alts : List (List Kind) := []      -- further complete parameter lists (second syntax of the keyword)
+  suffix : Bool := false             -- may carry `_n`, `_CLASS`, `_*` on the keyword
+  documented : Bool := true          -- part of the syntax summary the library documents (cards.py docstring)
+  deriving Repr
+
+open Kind in
+/-- Appendix A of DESIGN.md.  `num` marks a real-valued parameter (written as `2`, `2.0`, `.5` … see `styles`),
+    `int` an integer one, `word` a name, `sym` a symmetry-operator fragment. -/
+def syntaxTable : List Syn := [
+  -- header objects
+  { kw := "TITL", slot := .titl, tails := [[], [word], [word, word, int, sym]] },
+  { kw := "CELL", slot := .cell, mand := [num, num, num, num, num, num, num] },
+  { kw := "ZERR", slot := .zerr, mand := [num, num, num, num, num, num, num], alts := [[int, num, num, num, num, num, num]] },
+  { kw := "LATT", slot := .latt, opts := [[int]] },
+  { kw := "SYMM", slot := .symm, mand := [sym, sym, sym], alts := [[sym], [sym, word, sym], [word, sym, word]] },
+  { kw := "NEUT", slot := .neut },
+  { kw := "SFAC", slot := .sfac, tails := [[word], [word, word], [word, word, word, word]],
+    alts := [[word, num, num, num, num, num, num, num, num, num, num, num, num, num, num]] },
+  { kw := "DISP", slot := .disp, mand := [word, num, num], opts := [[num], [num]] },
+  { kw := "UNIT", slot := .unit, tails := [[num], [num, num, num], [int, int, int]] },
+  -- numeric-parameter objects
+  { kw := "L.S.", opts := [[int], [int], [int]] },
+  { kw := "CGLS", opts := [[int], [int], [int]] },
+  { kw := "ABIN", mand := [int, int] },
+  { kw := "ACTA", opts := [[num]], tails := [[], [word]] },
+  { kw := "DAMP", opts := [[num], [int]] },
+  { kw := "FMAP", opts := [[int], [int], [int]] },
+  { kw := "GRID", opts := [[num], [num], [num], [num], [num], [num]] },
+  { kw := "HKLF", slot := .hklf, opts := [[int], [num], [int, int, int, int, int, int, int, int, int], [num], [int]] },
+  { kw := "MERG", opts := [[int]] },
+  { kw := "MORE", opts := [[int]] },
+  { kw := "MOVE", opts := [[num], [num], [num], [int]] },
+  { kw := "PLAN", opts := [[int], [num], [num]] },
+  { kw := "PRIG", opts := [[num]] },
+  { kw := "SHEL", opts := [[num], [num]] },
+  { kw := "SIZE", mand := [num, num, num] },
+  { kw := "SPEC", opts := [[num]] },
+  { kw := "STIR", mand := [num], opts := [[num]] },
+  { kw := "SWAT", opts := [[num], [num]] },
+  { kw := "TWIN", opts := [[int, int, int, int, int, int, int, int, int], [int]],
+    alts := [[num, num, num, num, num, num, num, num, num], [num, num, num, num, num, num, num, num, num, int]] },
+  { kw := "TWST", opts := [[int]] },
+  { kw := "WGHT", opts := [[num], [num], [num], [num], [num], [num]] },
+  { kw := "WIGL", opts := [[num], [num]] },
+  { kw := "WPDB", opts := [[int]] },
+  { kw := "XNPD", opts := [[num]] },
+  { kw := "BASF", tails := [[num], [num, num, num]] },
+  { kw := "SUMP", mand := [num, num], tails := [[num, int], [num, int, num, int], [num, int, num, int, num, int]] },
+  { kw := "FVAR", slot := .fvar, tails := [[num], [num, num], [num, num, num, num, num, num, num]] },
+  -- value only, line kept raw
+  { kw := "LIST", opts := [[int], [int]] },
+  { kw := "TEMP", opts := [[num]] },
+  { kw := "EXTI", opts := [[num]] },
+  { kw := "ANSC", mand := [num, num, num, num, num, num] },
+  { kw := "ANSR", opts := [[num]] },
+  { kw := "EQIV", mand := [word, sym, sym, sym], alts := [[word, sym], [word, sym, word, sym], [word, word, sym, word]] },
+  { kw := "OMIT", tails := [[word], [word, word, word]], alts := [[], [num], [num, num], [int, int, int]], suffix := true },
+  { kw := "LAUE", mand := [word] },
+  { kw := "REM", tails := [[], [word], [word, sym, int, num, word]] },
+  { kw := "END", slot := .endd },
+  -- context objects
+  { kw := "RESI", alts := [[], [int], [word], [word, int], [int, word], [word, int, int], [int, word, int]] },
+  { kw := "PART", mand := [int], opts := [[num]] },
+  { kw := "AFIX", mand := [int], opts := [[num], [num], [num]] },
+  -- atom-list objects
+  { kw := "ANIS", tails := [[], [int], [word], [word, word, word]], suffix := true },
+  { kw := "BIND", alts := [[word, word], [int, int]] },
+  { kw := "BLOC", mand := [int, int], tails := [[], [word], [word, word, word]], suffix := true },
+  { kw := "BOND", tails := [[], [word], [word, word, word]], suffix := true },
+  { kw := "CONF", alts := [[], [word, word, word, word], [word, word, word, word, num], [word, word, word, word, num, num]], suffix := true },
+  { kw := "CONN", opts := [[int], [num]], tails := [[], [word], [word, word]], alts := [[word, int]], suffix := true },
+  { kw := "FREE", mand := [word, word] },
+  { kw := "HFIX", mand := [int], opts := [[num], [num]], tails := [[word], [word, word, word]], suffix := true },
+  { kw := "HTAB", alts := [[], [num], [word, word]], suffix := true },
+  { kw := "MPLA", alts := [[int, word, word, word], [word, word, word], [int, word, word, word, word]], suffix := true },
+  { kw := "RTAB", mand := [word], tails := [[word, word], [word, word, word], [word, word, word, word]], suffix := true },
+  -- restraints
+  { kw := "DEFS", opts := [[num], [num], [num], [num], [num]] },
+  { kw := "DFIX", mand := [num], opts := [[num]], tails := [[word, word], [word, word, word, word]], suffix := true },
+  { kw := "DANG", mand := [num], opts := [[num]], tails := [[word, word], [word, word, word, word]], suffix := true },
+  { kw := "SADI", opts := [[num]], tails := [[word, word, word, word], [word, word, word, word, word, word]], suffix := true },
+  { kw := "SAME", opts := [[num], [num]], tails := [[word], [word, word, word]], suffix := true },
+  { kw := "FLAT", opts := [[num]], tails := [[word, word, word, word], [word, word, word, word, word]], suffix := true },
+  { kw := "CHIV", opts := [[num], [num]], tails := [[word], [word, word]], suffix := true },
+  { kw := "DELU", opts := [[num], [num]], tails := [[], [word, word]], suffix := true },
+  { kw := "SIMU", opts := [[num], [num], [num]], tails := [[], [word, word]], suffix := true },
+  { kw := "RIGU", opts := [[num], [num]], tails := [[], [word, word]], suffix := true },
+  { kw := "ISOR", opts := [[num], [num]], tails := [[], [word, word]], suffix := true },
+  { kw := "NCSY", mand := [int], opts := [[num], [num]], tails := [[], [word, word]], suffix := true },
+  { kw := "BUMP", opts := [[num]] },
+  { kw := "EADP", tails := [[word, word], [word, word, word]], suffix := true },
+  { kw := "EXYZ", tails := [[word, word], [word, word, word]], suffix := true },
+  -- keywords of SHELXL the library lists (SHX_CARDS) but does not document: kept raw
+  { kw := "TIME", opts := [[num]], documented := false },
+  { kw := "MOLE", opts := [[int]], documented := false },
+  { kw := "HOPE", opts := [[int]], documented := false },
+  { kw := "CHAN", opts := [[int]], documented := false },
+  { kw := "FLAP", opts := [[int]], documented := false },
+  { kw := "RNUM", opts := [[int]], documented := false },
+  { kw := "SOCC", tails := [[], [word]], documented := false },
+  { kw := "RANG", opts := [[num]], tails := [[], [word, word, word]], documented := false },
+  { kw := "TANG", opts := [[num]], tails := [[], [word, word, word]], documented := false },
+  { kw := "ADDA", tails := [[], [word]], documented := false },
+  { kw := "STAG", opts := [[num]], tails := [[], [word]], documented := false },
+  { kw := "REST", tails := [[], [word]], documented := false },
+  { kw := "NOTR", documented := false },
+  { kw := "BEDE", tails := [[word, word, word, num, num]], documented := false },
+  { kw := "LONE", tails := [[int, word, num, num]], documented := false }
+]
+
+def prefixes {α} : List (List α) → List (List α)
+  | [] => [[]]
+  | g :: gs => [] :: (prefixes gs).map (g ++ ·)
+
+/-- the legal parameter lists of one table entry -/
+def Syn.paramLists (s : Syn) : List (List Kind) :=
+  ((prefixes s.opts).flatMap fun p => s.tails.map fun t => s.mand ++ p ++ t) ++ s.alts
+
+/-- a real-valued parameter may be written `2`, `2.0` or `.5` -/
+def restyle (to : Kind) (l : List Kind) : List Kind := l.map fun k => if k == .num then to else k
+
+def styles : List Kind := [.num, .int, .dnum]
+
+def Syn.forms (s : Syn) : List Form :=
+  (s.paramLists.flatMap fun p => styles.map fun st => ({ kw := s.kw, toks := restyle st p } : Form)).eraseDups
+
+def validForms (kw : String) : List Form := (syntaxTable.filter (·.kw == kw)).flatMap Syn.forms
+
+def allValidForms : List Form := syntaxTable.flatMap Syn.forms
+
+/-- atom lines: `name sfac x y z`, `… sof`, `… sof U`, `… sof U11 … U12`, Q-peak (`sof U height`), any of the
+    coordinates / sof / U carrying a free-variable code -/
+def atomForms : List Form :=
+  let cols : List (List Kind) := [
+    [.int, .num, .num, .num],
+    [.int, .num, .num, .num, .big],
+    [.int, .num, .num, .num, .big, .num],
+    [.int, .num, .num, .num, .num, .num],
+    [.int, .num, .num, .num, .big, .num, .num],
+    [.int, .num, .num, .num, .big, .num, .num, .num, .num, .num, .num],
+    [.int, .big, .num, .num, .big, .num],
+    [.int, .num, .big, .big, .big, .big],
+    [.int, .num, .num, .num, .big, .big, .num, .num, .num, .num, .num],
+    [.int, .int, .int, .int, .big, .num]]
+  cols.map fun c => { kw := "C1", toks := c }
+
+/-- where a header keyword may stand: the keyword that was seen last among TITL CELL ZERR LATT SYMM SFAC UNIT
+    (the parser's `lastcard`) -/
+def Slot.ctxs : Slot → List Ctx
+  | .titl => [{}]
+  | .cell => [{ last := "TITL" }]
+  | .zerr => [{ last := "CELL", flags := ["cell"] }]
+  | .latt => [{ last := "ZERR", flags := ["cell"] }]
+  | .symm => [{ last := "ZERR", flags := ["cell", "latt"] }, { last := "SYMM", flags := ["cell", "latt"] }]
+  | .neut => [{ last := "ZERR", flags := ["cell", "latt"] }, { last := "SYMM", flags := ["cell", "latt"] }]
+  | .sfac => [{ last := "ZERR", flags := ["cell", "latt"] }, { last := "SYMM", flags := ["cell", "latt"] },
+              { last := "SFAC", flags := ["cell", "latt", "sfac"] }]
+  | .disp => [{ last := "SFAC", flags := ["cell", "latt", "sfac"] }]
+  | .unit => [{ last := "SFAC", flags := ["cell", "latt", "sfac"] }]
+  | .tail => [{ last := "UNIT", flags := ["cell", "latt", "sfac", "end"] }]
+  | _ => [{ last := "UNIT", flags := ["cell", "latt", "sfac"] }, { last := "UNIT", flags := ["cell", "latt", "sfac", "end"] }]
+
+def slotOf (kw : String) : Slot := match syntaxTable.find? (·.kw == kw) with | some s => s.slot | none => .body
+
+/-- all (context, line) pairs the syntax allows, for one keyword -/
+def validCases (kw : String) : List (Ctx × Form) :=
+  (slotOf kw).ctxs.flatMap fun c => (validForms kw).map fun f => (c, f)
+
+/-- the tests the translator cannot interpret and that valid input never triggers (each is named in
+    `ctx.assumptions` of the harness and met by construction by the generator) -/
+def assumed : List String := [
+  "self.residue_number < -999 or self.residue_number > 9999",        -- residue numbers are in range
+  "len(self.unit.values) != len(self.sfac_table.elements_list)",     -- UNIT has one number per SFAC element
+  "len(self.atoms) % 2 != 0",                                        -- DFIX/DANG/SADI carry atom *pairs*
+  "0.0001 < self.d <= self.s",                                       -- DANG: the target distance exceeds its esd
+  "not:self.d", "not:self.DN",                                       -- DFIX/DANG d and NCSY DN are not zero
+  "not:line.strip()"                                                 -- the line is not blank
+]
+
+/-- SPEC: what the property says about a file of valid lines, in one mode -/
+def SpecHolds (o : Outcome) (n : Nat) : Prop := o.innerErr = none ∧ o.raised = none ∧ o.consumed = n ∧ o.lastLine = n - 1
 
 end Shelx.C02
